@@ -4048,8 +4048,15 @@ class BnfEmitter(bnfListener.bnfListener):
         self.partial_results[ctx] = "".join(elems)
 
 
+class RaisingLexerErrorListener(antlr4.error.ErrorListener.ErrorListener):
+    def syntaxError(self, recognizer, offendingSymbol, line, column, msg, e):
+        raise SyntaxError(f"line {line}:{column} {msg}")
+
+
 def parse_bnf(inp: str) -> Grammar:
     lexer = bnfLexer(InputStream(inp))
+    lexer.removeErrorListeners()
+    lexer.addErrorListener(RaisingLexerErrorListener())
     parser = bnfParser(antlr4.CommonTokenStream(lexer))
     parser._errHandler = BailPrintErrorStrategy()
     bnf_emitter = BnfEmitter()
